@@ -79,3 +79,8 @@ Fixpoint nearest (fuel : nat) (reg : registry) (visited : list N) (id : N) (sel 
 Definition clone_rows_complete (rows : list (string * string * list string * list string)) : bool :=
   forallb (fun row => let '(_, _, decl, copied) := row in
                       forallb (fun f => existsb (String.eqb f) copied) decl) rows.
+
+(* every struct type a style can hold is built afresh by some clone function (a type that is not is shared between
+   the clone and its source) *)
+Definition clone_types_covered (rows : list (string * string * list string * list string)) (types : list string) : bool :=
+  forallb (fun t => existsb (fun row => let '(_, ty, _, _) := row in String.eqb t ty) rows) types.
